@@ -75,3 +75,67 @@ func VP_C14_Log() {
 	zzvp.Done()
 }
 
+
+// VP_C14_Fields: every listed commit is printed with its own id, author and message — also when a commit object is larger
+// than the buffers of the standard library (a message of several lines and more than 4 KiB) and next to short free messages.
+func VP_C14_Fields() {
+	vpInitRepo()
+	w := zzvp.Root()
+	long := "fix the frobnicator\n\n"
+	for i := 0; i < zzvp.Param("biglen", 4200); i++ {
+		long += "z"
+	}
+	long += "\nlast line"
+	free := zzvp.Str("fm", 1+zzvp.Choose(zzvp.Param("msglen", 2)), "!-~")
+	msgs := []string{long, free, "third"}
+	if zzvp.Choose(2) == 1 {
+		msgs = []string{free, long, "third"}
+	}
+	var ids []string
+	for i, m := range msgs {
+		zzvp.WriteFile(w+"/f", []byte{byte('a' + i)})
+		vpOK(zzvp.Run("add", "f"))
+		vpOK(zzvp.Run("commit", "-m", m))
+		id, _, _ := vpBranch("main")
+		ids = append(ids, vpHex(id))
+	}
+	r := zzvp.Run("log")
+	zzvp.Assert(r.Exit == 0, "log succeeds when there is a commit")
+	out := r.Out
+	// newest first: cut the output at the "commit <id>" lines, in order
+	pos := make([]int, len(ids)+1)
+	ok := true
+	from := 0
+	for k := 0; k < len(ids); k++ {
+		head := "commit " + ids[len(ids)-1-k] + "\n"
+		p := vpIndexFrom(out, head, from)
+		if p < 0 {
+			ok = false
+			break
+		}
+		pos[k] = p
+		from = p + len(head)
+	}
+	pos[len(ids)] = len(out)
+	zzvp.Assert(ok && pos[0] == 0, "log lists exactly the min(k, length) most recent commits of HEAD's parent chain, newest first, each once")
+	if !ok {
+		return
+	}
+	for k := 0; k < len(ids); k++ {
+		seg := out[pos[k]:pos[k+1]]
+		pre := "commit " + ids[len(ids)-1-k] + "\nAuthor: A U Thor <a@b.cd>\nDate: "
+		suf := "\n\n\t" + msgs[len(ids)-1-k] + "\n\n"
+		good := len(seg) >= len(pre)+len(suf) && seg[:len(pre)] == pre && seg[len(seg)-len(suf):] == suf
+		zzvp.Assert(good, "each listed commit is printed with its own id, author and message")
+	}
+	zzvp.Done()
+}
+
+func vpIndexFrom(s, sub string, from int) int {
+	for i := from; i+len(sub) <= len(s); i++ {
+		if s[i:i+len(sub)] == sub {
+			return i
+		}
+	}
+	return -1
+}
